@@ -181,27 +181,21 @@ Proof.
 Qed.
 
 (* sets *)
-Lemma members_lt_max : forall s, set_overflows s = false ->
-  exists ms, snset_members s = Ok ms /\ Forall (fun m => m < i64_max) ms.
+Lemma sn_members_from_lt : forall base ws n i, Forall (fun m => m < i64_max) (sn_members_from base ws n i).
 Proof.
-  intros s H. unfold set_overflows in H. unfold snset_members.
-  assert (Hb : forall j, 0 <= j < 0 + Z.of_nat (Z.to_nat (ss_bits s)) -> bit_set (ss_map s) j = true -> ss_base s + j < i64_max).
-  { intros j Hj Hbit. destruct (Z.lt_ge_cases (ss_base s + j) i64_max); [auto|].
-    assert (X : existsb (fun i => bit_set (ss_map s) i && (i64_max <=? ss_base s + i)) (ziota (ss_bits s)) = true).
-    { apply existsb_exists. exists j. split; [apply In_ziota; lia|]. rewrite Hbit. cbn. apply Z.leb_le. lia. }
-    rewrite X in H. discriminate. }
-  rewrite members_from_list by (intros j Hj Hbit; specialize (Hb j Hj Hbit); lia).
-  eexists; split; [reflexivity|]. apply Forall_forall. intros x Hx.
-  apply In_set_list in Hx as (j & Hj & Hs & ->). apply Hb; [lia|exact Hs].
+  intros base ws n; induction n as [|k IH]; intros i; cbn [sn_members_from]; [constructor|].
+  destruct (bit_set ws i); [|apply IH].
+  destruct (Z.ltb_spec (base + i) i64_max); [constructor; [assumption|apply IH]|constructor].
 Qed.
+Lemma sn_members_lt : forall s, Forall (fun m => m < i64_max) (sn_members s).
+Proof. intros s. apply sn_members_from_lt. Qed.
 
-Lemma gap_proxy_ok : forall start gl p, wproxy_ok C p -> set_overflows gl = false -> ss_base gl <= i64_max ->
+Lemma gap_proxy_ok : forall start gl p, wproxy_ok C p -> ss_base gl <= i64_max ->
   exists p', gap_proxy start gl p = Ok p' /\ wproxy_ok C p' /\ wp_guid p' = wp_guid p.
 Proof.
-  intros start gl p H Hs Hb. unfold gap_proxy.
-  destruct (members_lt_max gl Hs) as (ms & Hm & Hlt). rewrite Hm. cbn [lift_se bind].
+  intros start gl p H Hb. unfold gap_proxy.
   eexists; split; [reflexivity|]. split.
-  - apply fold_raise_ok; [|exact Hlt]. destruct (start <? ss_base gl); [apply raise_high_ok; [exact H|lia]|exact H].
+  - apply fold_raise_ok; [|apply sn_members_lt]. destruct (start <? ss_base gl); [apply raise_high_ok; [exact H|lia]|exact H].
   - rewrite fold_raise_guid. destruct (start <? ss_base gl); [apply raise_high_guid|reflexivity].
 Qed.
 
@@ -303,10 +297,12 @@ Lemma with_proxies_ok : forall C r x l o, x = Ok (l, o) -> Forall (wproxy_ok C) 
   exists r', with_proxies r x = Ok (r', o) /\ reader_ok C r' /\ sr_user r' = sr_user r /\ sr_proxies r' = l.
 Proof. intros C r x l o -> H. unfold with_proxies. cbn [bind fst snd]. eexists; split; [reflexivity|]. split; [exact H|split; reflexivity]. Qed.
 
-Lemma reader_data_ok : forall C src wid s r, C <= FRAG_CAP -> reader_ok C r -> s < i64_max ->
+Lemma reader_data_ok : forall C src wid s r, C <= FRAG_CAP -> reader_ok C r -> s <= i64_max ->
   exists r' o, reader_data src wid s r = Ok (r', o) /\ reader_ok C r'.
 Proof.
-  intros C src wid s r HC H Hs. unfold reader_data.
+  intros C src wid s r HC H Hs0. unfold reader_data.
+  destruct (Z.eqb_spec s i64_max) as [Hm|Hm]; [do 2 eexists; split; [reflexivity|exact H]|].
+  assert (Hs : s < i64_max) by lia.
   destruct (upd_proxy_ok _ wp_guid (wproxy_ok C) (wproxy_ok C) (src ++ wid) (quiet (on_data_proxy (sr_rel r) s)) (sr_proxies r))
     as (l & o & E1 & E2 & _); [auto| |exact H|].
   { intros p _ Hp. apply quiet_ok. apply on_data_proxy_ok; auto. }
@@ -314,12 +310,16 @@ Proof.
 Qed.
 
 Lemma reader_frag_ok : forall C src wid f r, C + fr_len f + 1 <= FRAG_CAP -> reader_ok C r ->
-  0 <= fr_len f -> 0 <= fr_count f <= fr_len f + 1 -> fr_sn f < i64_max ->
+  0 <= fr_len f -> 0 <= fr_count f -> fr_sn f <= i64_max ->
   exists r' o, reader_frag src wid f r = Ok (r', o) /\ reader_ok (C + fr_len f + 1) r'.
 Proof.
-  intros C src wid f r HC H Hl Hc Hs. unfold reader_frag.
-  destruct (Z.eqb_spec (fr_size f) 0) as [Hz|Hz].
-  - do 2 eexists; split; [reflexivity|]. eapply Forall_impl; [|exact H]. intros p Hp. eapply wp_weaken; [|exact Hp]. lia.
+  intros C src wid f r HC H Hl Hc0 Hs0. unfold reader_frag.
+  assert (Hw : reader_ok (C + fr_len f + 1) r).
+  { eapply Forall_impl; [|exact H]. intros p Hp. eapply wp_weaken; [|exact Hp]. lia. }
+  destruct (Z.eqb_spec (fr_size f) 0) as [Hz|Hz]; [do 2 eexists; split; [reflexivity|exact Hw]|].
+  destruct (Z.eqb_spec (fr_sn f) i64_max) as [Hm|Hm]; cbn [orb]; [do 2 eexists; split; [reflexivity|exact Hw]|].
+  destruct (Z.ltb_spec (fr_len f + 1) (fr_count f)) as [Hgt|Hle]; [do 2 eexists; split; [reflexivity|exact Hw]|].
+  assert (Hs : fr_sn f < i64_max) by lia. assert (Hc : 0 <= fr_count f <= fr_len f + 1) by lia.
   - destruct (upd_proxy_ok _ wp_guid (wproxy_ok C) (wproxy_ok (C + fr_len f + 1)) (src ++ wid)
                 (quiet (on_frag_proxy (sr_rel r) f)) (sr_proxies r)) as (l & o & E1 & E2 & _); [| |exact H|].
     { intros p Hp. eapply wp_weaken; [|exact Hp]. lia. }
@@ -328,10 +328,10 @@ Proof.
 Qed.
 
 Lemma reader_gap_ok : forall C src wid start gl r, C <= FRAG_CAP -> reader_ok C r ->
-  set_overflows gl = false -> ss_base gl <= i64_max ->
+  ss_base gl <= i64_max ->
   exists r' o, reader_gap src wid start gl r = Ok (r', o) /\ reader_ok C r'.
 Proof.
-  intros C src wid start gl r HC H Hs Hb. unfold reader_gap.
+  intros C src wid start gl r HC H Hb. unfold reader_gap.
   destruct (upd_proxy_ok _ wp_guid (wproxy_ok C) (wproxy_ok C) (src ++ wid) (quiet (gap_proxy start gl)) (sr_proxies r))
     as (l & o & E1 & E2 & _); [auto| |exact H|].
   { intros p _ Hp. apply quiet_ok. apply gap_proxy_ok; auto. }
@@ -379,16 +379,13 @@ Definition rp_same (w : swriter) (rp rp' : rproxy) : Prop :=
   rp_guid rp' = rp_guid rp /\ rp_sent rp' = rp_sent rp.
 
 Lemma acknack_proxy_ok : forall w st count rp, sw_dmax w <> 0 -> has_unsent w rp = false ->
-  set_overflows st = false -> i64_min < ss_base st ->
   exists rp' o, acknack_proxy w st count rp = Ok (rp', o) /\ has_unsent w rp' = false /\ rp_guid rp' = rp_guid rp.
 Proof.
-  intros w st count rp Hd Hu Hs Hb. unfold acknack_proxy.
+  intros w st count rp Hd Hu. unfold acknack_proxy.
   destruct (_ && _); [|do 2 eexists; split; [reflexivity|auto]].
-  rewrite sub1_ok by exact Hb. cbn [bind].
-  destruct (members_lt_max st Hs) as (ms & Hm & Hlt). rewrite Hm. cbn [lift_se bind].
   set (rp1 := mk_rp _ _ _ _ _ _ _).
   assert (Hu1 : has_unsent w rp1 = false) by exact Hu. rewrite Hu1.
-  destruct (send_all_ok w rp1 ms Hd Hlt) as [o Ho]. rewrite Ho. cbn [bind].
+  destruct (send_all_ok w rp1 (sn_members st) Hd (sn_members_lt st)) as [o Ho]. rewrite Ho. cbn [bind].
   do 2 eexists; split; [reflexivity|split; [exact Hu1|reflexivity]].
 Qed.
 
@@ -403,16 +400,16 @@ Proof.
 Qed.
 
 Lemma nackfrag_proxy_ok : forall w s fs count rp, sw_dmax w <> 0 -> has_unsent w rp = false ->
-  fset_overflows fs = false -> s < i64_max ->
+  fset_overflows fs = false ->
   exists rp' o, nackfrag_proxy w s fs count rp = Ok (rp', o) /\ has_unsent w rp' = false /\ rp_guid rp' = rp_guid rp.
 Proof.
-  intros w s fs count rp Hd Hu Hf Hs. unfold nackfrag_proxy.
+  intros w s fs count rp Hd Hu Hf. unfold nackfrag_proxy.
   destruct (_ && _); [|do 2 eexists; split; [reflexivity|auto]].
   destruct (find_change w s) as [c|].
   - unfold nfrags. destruct (Z.eqb_spec (sw_dmax w) 0); [contradiction|]. cbn [bind].
     destruct (fmembers_ok fs Hf) as [ms Hm]. rewrite Hm. cbn [lift_se bind].
     do 2 eexists; split; [reflexivity|split; [exact Hu|reflexivity]].
-  - rewrite add1_ok by exact Hs. cbn [bind]. do 2 eexists; split; [reflexivity|split; [exact Hu|reflexivity]].
+  - do 2 eexists; split; [reflexivity|split; [exact Hu|reflexivity]].
 Qed.
 
 Lemma with_rproxies_ok : forall w x l o, x = Ok (l, o) -> sw_dmax w <> 0 ->
@@ -425,10 +422,9 @@ Proof.
 Qed.
 
 Lemma writer_acknack_ok : forall src rid wid st count w, swriter_ok w ->
-  set_overflows st = false -> i64_min < ss_base st ->
   exists w' o, writer_acknack src rid wid st count w = Ok (w', o) /\ swriter_ok w'.
 Proof.
-  intros src rid wid st count w (Hd & Hc & Hp) Hs Hb. unfold writer_acknack.
+  intros src rid wid st count w (Hd & Hc & Hp). unfold writer_acknack.
   destruct (list_eqb (sw_eid w) wid); [|do 2 eexists; split; [reflexivity|repeat split; auto]].
   destruct (upd_proxy_ok _ rp_guid (fun rp => has_unsent w rp = false) (fun rp => has_unsent w rp = false)
               (src ++ rid) (acknack_proxy w st count) (sw_proxies w)) as (l & o & E1 & E2 & _); [auto| |exact Hp|].
@@ -437,10 +433,10 @@ Proof.
 Qed.
 
 Lemma writer_nackfrag_ok : forall src rid s fs count w, swriter_ok w ->
-  fset_overflows fs = false -> s < i64_max ->
+  fset_overflows fs = false ->
   exists w' o, writer_nackfrag src rid s fs count w = Ok (w', o) /\ swriter_ok w'.
 Proof.
-  intros src rid s fs count w (Hd & Hc & Hp) Hf Hs. unfold writer_nackfrag.
+  intros src rid s fs count w (Hd & Hc & Hp) Hf. unfold writer_nackfrag.
   destruct (upd_proxy_ok _ rp_guid (fun rp => has_unsent w rp = false) (fun rp => has_unsent w rp = false)
               (src ++ rid) (nackfrag_proxy w s fs count) (sw_proxies w)) as (l & o & E1 & E2 & _); [auto| |exact Hp|].
   { intros rp _ Hrp. apply nackfrag_proxy_ok; auto. }
@@ -476,35 +472,23 @@ Qed.
 Lemma orb_false4 : forall a b, a || b = false -> a = false /\ b = false.
 Proof. intros a b H. apply orb_false_iff in H. exact H. Qed.
 
-Lemma known_sub_false : forall m, known_sub m = false ->
-  k_inforeply m = false /\ k_set_max m = false /\ k_acknack_min m = false /\ k_hb_min m = false /\
-  k_sn_max m = false /\ k_fset m = false /\ k_gap_range m = false /\ k_frag_count m = false.
-Proof.
-  intros m H. unfold known_sub, known_panic, known_cost in H.
-  destruct (k_inforeply m), (k_set_max m), (k_acknack_min m), (k_hb_min m), (k_sn_max m), (k_fset m),
-    (k_gap_range m), (k_frag_count m); cbn in H; try discriminate H; repeat split; reflexivity.
-Qed.
-
 Theorem handle_sub_ok : forall C rs st m,
-  C + frag_bytes_sub m <= FRAG_CAP -> InvC C st -> known_sub m = false ->
+  C + frag_bytes_sub m <= FRAG_CAP -> InvC C st -> sub_range m ->
   exists rs' st' o, handle_sub rs st m = Ok (rs', st', o) /\ InvC (C + frag_bytes_sub m) st' /\
                     length (ps_readers st') = length (ps_readers st).
 Proof.
-  intros C rs st m HC HI HK.
-  apply known_sub_false in HK. destruct HK as (HK & Ksm & Kan & Khb & Ksn & Kfs & Kgr & Kfc).
-  destruct m; cbn [handle_sub frag_bytes_sub] in *; try rewrite Z.add_0_r in *.
+  intros C rs st m HC HI HR.
+  destruct m; cbn [handle_sub frag_bytes_sub sub_range] in *; try rewrite Z.add_0_r in *.
   - (* AckNack *)
-    cbn [k_set_max k_acknack_min] in *. apply Z.leb_gt in Kan.
     destruct (on_writers_ok C st (writer_acknack (rs_src rs) rid wid state count)) as (st' & o & E1 & E2 & E3); [|exact HI|].
     { intros w Hw. apply writer_acknack_ok; auto. }
     rewrite E1. cbn [bind fst snd]. do 3 eexists; split; [reflexivity|]. split; [exact E2|rewrite E3; reflexivity].
   - (* Data *)
-    cbn [k_sn_max] in Ksn. apply Z.leb_gt in Ksn.
     destruct (on_readers_ok C C st (reader_data (rs_src rs) wid sn)) as (st' & o & E1 & E2 & E3); [|exact HI|].
-    { intros r Hr. apply reader_data_ok; auto; try lia. }
+    { intros r Hr. apply reader_data_ok; auto. destruct HR; assumption. }
     rewrite E1. cbn [bind fst snd]. do 3 eexists; split; [reflexivity|auto].
   - (* DataFrag *)
-    cbn [k_sn_max k_frag_count] in *. apply Z.leb_gt in Ksn. apply orb_false4 in Kfc as [Kfc Kf0]. apply Z.ltb_ge in Kfc. apply Z.ltb_ge in Kf0.
+    destruct HR as [[_ Hs] Hfc].
     destruct (on_readers_ok C (C + (len payload + 1)) st
                 (reader_frag (rs_src rs) wid (mk_frag sn fstart fcount fsize dsize (len payload)))) as (st' & o & E1 & E2 & E3); [|exact HI|].
     { intros r Hr.
@@ -513,25 +497,26 @@ Proof.
       exists r', o. split; [exact F1|]. cbn [fr_len] in F2. replace (C + (len payload + 1)) with (C + len payload + 1) by lia. exact F2. }
     rewrite E1. cbn [bind fst snd]. do 3 eexists; split; [reflexivity|auto].
   - (* Gap *)
-    cbn [k_set_max] in Ksm. apply orb_false4 in Ksm as [Ks Kb]. apply Z.ltb_ge in Kb.
+    destruct HR as [_ [_ Hb]].
     destruct (on_readers_ok C C st (reader_gap (rs_src rs) wid start gl)) as (st' & o & E1 & E2 & E3); [|exact HI|].
-    { intros r Hr. apply reader_gap_ok; auto; try lia. }
+    { intros r Hr. apply reader_gap_ok; auto. }
     rewrite E1. cbn [bind fst snd]. do 3 eexists; split; [reflexivity|auto].
   - (* Heartbeat *)
-    cbn [k_hb_min] in Khb. apply orb_false4 in Khb as [K1 K2]. apply Z.leb_gt in K1. apply Z.ltb_ge in K2.
+    destruct HR as [[_ Hf] _].
+    destruct (Z.leb_spec first 0); [do 3 eexists; split; [reflexivity|auto]|].
     destruct (on_readers_ok C C st (reader_hb (rs_src rs) wid final live first last count)) as (st' & o & E1 & E2 & E3); [|exact HI|].
-    { intros r Hr. apply reader_hb_ok; auto; try lia. }
+    { intros r Hr. apply reader_hb_ok; auto. unfold i64_min. lia. }
     rewrite E1. cbn [bind fst snd]. do 3 eexists; split; [reflexivity|auto].
   - (* HeartbeatFrag *)
     destruct (on_readers_ok C C st (reader_hbf (rs_src rs) wid count)) as (st' & o & E1 & E2 & E3); [|exact HI|].
     { intros r Hr. apply reader_hbf_ok; auto. }
     rewrite E1. cbn [bind fst snd]. do 3 eexists; split; [reflexivity|auto].
   - do 3 eexists; split; [reflexivity|auto].
-  - cbn [k_inforeply] in HK. discriminate.
+  - do 3 eexists; split; [reflexivity|auto].
   - do 3 eexists; split; [reflexivity|auto].
   - do 3 eexists; split; [reflexivity|auto].
   - (* NackFrag *)
-    cbn [k_sn_max k_fset] in *. apply Z.leb_gt in Ksn.
+    destruct HR as [_ Hfs].
     destruct (on_writers_ok C st (writer_nackfrag (rs_src rs) rid sn fstate count)) as (st' & o & E1 & E2 & E3); [|exact HI|].
     { intros w Hw. apply writer_nackfrag_ok; auto. }
     rewrite E1. cbn [bind fst snd]. do 3 eexists; split; [reflexivity|]. split; [exact E2|rewrite E3; reflexivity].
@@ -546,13 +531,13 @@ Proof.
 Qed.
 
 Lemma handle_subs_ok : forall l C rs st,
-  C + frag_bytes l <= FRAG_CAP -> InvC C st -> existsb known_sub l = false ->
+  C + frag_bytes l <= FRAG_CAP -> InvC C st -> Forall sub_range l ->
   exists st' o, handle_subs rs st l = Ok (st', o) /\ InvC (C + frag_bytes l) st' /\
                 length (ps_readers st') = length (ps_readers st).
 Proof.
   induction l as [|m t IH]; intros C rs st HC HI HK; cbn [handle_subs].
   - do 2 eexists; split; [reflexivity|]. unfold frag_bytes; cbn. rewrite Z.add_0_r. auto.
-  - cbn [existsb] in HK. apply orb_false4 in HK as [K1 K2].
+  - inversion HK as [|? ? K1 K2]; subst.
     unfold frag_bytes in *. cbn [map sumZ] in *. pose proof (frag_bytes_nonneg t) as Hn. unfold frag_bytes in Hn.
     destruct (handle_sub_ok C rs st m) as (rs1 & st1 & o & E1 & E2 & E3); [lia|exact HI|exact K1|].
     rewrite E1. cbn [bind].
@@ -565,11 +550,11 @@ Qed.
 (* the decoder part is C07's: here it is only assumed not to panic on this byte string *)
 Theorem handle_datagram_ok : forall C st bytes,
   InvC C st -> C + frag_bytes (subs_of bytes) <= FRAG_CAP ->
-  is_panic (parse_message bytes) = false -> C06_known_dgram bytes = false ->
+  is_panic (parse_message bytes) = false -> Forall sub_range (subs_of bytes) ->
   exists st' o, handle_datagram st bytes = Ok (st', o) /\ InvC (C + frag_bytes (subs_of bytes)) st' /\
                 length (ps_readers st') = length (ps_readers st).
 Proof.
-  intros C st bytes HI HC Hp H6. unfold handle_datagram, C06_known_dgram, subs_of in *.
+  intros C st bytes HI HC Hp H6. unfold handle_datagram, subs_of in *.
   destruct (parse_message bytes) as [[h l]|e|x]; [|do 2 eexists; split; [reflexivity|]|discriminate].
   - apply handle_subs_ok; auto.
   - unfold frag_bytes; cbn. rewrite Z.add_0_r. auto.
@@ -583,7 +568,8 @@ Proof.
 Qed.
 
 Theorem run_datagrams_ok : forall ds C st,
-  InvC C st -> C + total_frag_bytes ds <= FRAG_CAP -> Forall dgram_fine ds ->
+  InvC C st -> C + total_frag_bytes ds <= FRAG_CAP ->
+  Forall (fun d => is_panic (parse_message d) = false /\ Forall sub_range (subs_of d)) ds ->
   exists st', run_datagrams st ds = Ok st' /\ InvC (C + total_frag_bytes ds) st'.
 Proof.
   induction ds as [|d t IH]; intros C st HI HC HF; cbn [run_datagrams].
@@ -641,40 +627,37 @@ Proof.
   apply reconstruct_steps_bound; auto. lia.
 Qed.
 
-Definition step_cap (C : Z) : Z := Z.max GAP_LIMIT ((C + 1) * (C + 1)).
+Definition step_cap (C : Z) : Z := (C + 1) * (C + 1).
 Lemma step_cap_mono : forall a b, 0 <= a <= b -> step_cap a <= step_cap b.
-Proof. intros a b H. unfold step_cap. assert ((a + 1) * (a + 1) <= (b + 1) * (b + 1)) by nia. lia. Qed.
+Proof. intros a b H. unfold step_cap. nia. Qed.
 Lemma step_cap_nonneg : forall a, 0 <= step_cap a.
-Proof. intros a. unfold step_cap, GAP_LIMIT. lia. Qed.
+Proof. intros a. unfold step_cap. nia. Qed.
 
-Lemma sub_steps_bound : forall C rs st m, 0 <= C -> InvC C st -> known_sub m = false ->
+Lemma sub_steps_bound : forall C rs st m, 0 <= C -> InvC C st -> sub_range m ->
   0 <= sub_steps rs st m <= len (ps_readers st) * step_cap (C + frag_bytes_sub m).
 Proof.
-  intros C rs st m HC0 [A _] HK. apply known_sub_false in HK. destruct HK as (_ & _ & _ & _ & _ & _ & Kgr & Kfc).
+  intros C rs st m HC0 [A _] HR.
   pose proof (len_nonneg _ (ps_readers st)) as Hl0.
   destruct m; cbn [sub_steps frag_bytes_sub]; try (pose proof (step_cap_nonneg (C + 0)); nia).
-  - (* DataFrag *)
-    cbn [k_frag_count] in Kfc. apply orb_false4 in Kfc as [Kfc Kf0]. apply Z.ltb_ge in Kfc. apply Z.ltb_ge in Kf0.
-    destruct (fsize =? 0) eqn:Ez; [pose proof (step_cap_nonneg (C + (len payload + 1))); nia|].
-    apply sumZ_bound. intros r Hr. rewrite Forall_forall in A. specialize (A r Hr).
-    apply (proxy_steps_bound _ _ _ _ (wproxy_ok C)); [apply step_cap_nonneg|exact A|].
-    intros p Hp. pose proof (len_nonneg _ payload) as Hpl.
-    pose proof (frag_steps_bound C (sr_rel r) (mk_frag sn fstart fcount fsize dsize (len payload)) p Hp) as Hb.
-    cbn [fr_len] in Hb. destruct Hb as [Hb1 Hb2]; [repeat split; cbn [fr_count fr_len fr_size]; try lia; apply Z.eqb_neq; exact Ez|exact HC0|].
-    split; [exact Hb1|]. unfold step_cap. replace (C + (len payload + 1) + 1) with (C + len payload + 1 + 1) by lia. lia.
-  - (* Gap *)
-    cbn [k_gap_range] in Kgr. apply Z.ltb_ge in Kgr.
-    apply sumZ_bound. intros r Hr. rewrite Forall_forall in A. specialize (A r Hr).
-    apply (proxy_steps_bound _ _ _ _ (wproxy_ok C)); [apply step_cap_nonneg|exact A|].
-    intros p _. unfold gap_steps, step_cap. rewrite Z.add_0_r. lia.
+  (* DataFrag *)
+  cbn [sub_range] in HR. destruct HR as [_ Hf0].
+  destruct (fsize =? 0) eqn:Ez; cbn [orb]; [pose proof (step_cap_nonneg (C + (len payload + 1))); nia|].
+  destruct (sn =? i64_max); cbn [orb]; [pose proof (step_cap_nonneg (C + (len payload + 1))); nia|].
+  destruct (Z.ltb_spec (len payload + 1) fcount) as [Hgt|Kfc]; [pose proof (step_cap_nonneg (C + (len payload + 1))); nia|].
+  apply sumZ_bound. intros r Hr. rewrite Forall_forall in A. specialize (A r Hr).
+  apply (proxy_steps_bound _ _ _ _ (wproxy_ok C)); [apply step_cap_nonneg|exact A|].
+  intros p Hp. pose proof (len_nonneg _ payload) as Hpl.
+  pose proof (frag_steps_bound C (sr_rel r) (mk_frag sn fstart fcount fsize dsize (len payload)) p Hp) as Hb.
+  cbn [fr_len] in Hb. destruct Hb as [Hb1 Hb2]; [repeat split; cbn [fr_count fr_len fr_size]; try lia; apply Z.eqb_neq; exact Ez|exact HC0|].
+  split; [exact Hb1|]. unfold step_cap. replace (C + (len payload + 1) + 1) with (C + len payload + 1 + 1) by lia. lia.
 Qed.
 
 Lemma subs_steps_bound : forall l C rs st, 0 <= C ->
-  C + frag_bytes l <= FRAG_CAP -> InvC C st -> existsb known_sub l = false ->
+  C + frag_bytes l <= FRAG_CAP -> InvC C st -> Forall sub_range l ->
   0 <= subs_steps rs st l <= len l * len (ps_readers st) * step_cap (C + frag_bytes l).
 Proof.
   induction l as [|m t IH]; intros C rs st HC0 HC HI HK; cbn [subs_steps]; [cbn; lia|].
-  cbn [existsb] in HK. apply orb_false4 in HK as [K1 K2].
+  inversion HK as [|? ? K1 K2]; subst.
   unfold frag_bytes in *. cbn [map sumZ] in *. pose proof (frag_bytes_nonneg t) as Hn. unfold frag_bytes in Hn.
   assert (Hm0 : 0 <= frag_bytes_sub m) by (destruct m; cbn; try lia; pose proof (len_nonneg _ payload); lia).
   pose proof (sub_steps_bound C rs st m HC0 HI K1) as Hs.
@@ -691,13 +674,13 @@ Proof.
 Qed.
 
 Theorem datagram_steps_bound : forall C st bytes, 0 <= C ->
-  InvC C st -> C + frag_bytes (subs_of bytes) <= FRAG_CAP -> C06_known_dgram bytes = false ->
+  InvC C st -> C + frag_bytes (subs_of bytes) <= FRAG_CAP -> Forall sub_range (subs_of bytes) ->
   0 <= datagram_steps st bytes <=
   steps_bound (len (subs_of bytes)) (len (ps_readers st)) (C + frag_bytes (subs_of bytes)).
 Proof.
-  intros C st bytes HC0 HI HC HK. unfold datagram_steps, C06_known_dgram, subs_of, steps_bound in *.
+  intros C st bytes HC0 HI HC HK. unfold datagram_steps, subs_of, steps_bound in *.
   destruct (parse_message bytes) as [[h l]|e|x].
   - apply subs_steps_bound; auto.
-  - cbn. pose proof (len_nonneg _ (ps_readers st)). unfold GAP_LIMIT. lia.
-  - cbn. pose proof (len_nonneg _ (ps_readers st)). unfold GAP_LIMIT. lia.
+  - cbn. lia.
+  - cbn. lia.
 Qed.
